@@ -94,6 +94,12 @@ fn walk_children(e: &mut Expr, it: &Item, f: &mut ExprFn) {
                 walk_expr(a, Role::Arg, it, f);
             }
         }
+        Expr::MCall(r, _, args) => {
+            walk_expr(r, Role::Other, it, f);
+            for a in args {
+                walk_expr(a, Role::Arg, it, f);
+            }
+        }
         Expr::Assign { e, .. } | Expr::CAssign { e, .. } => walk_expr(e, Role::Assigned, it, f),
         Expr::Ret(_, Some(x)) => walk_expr(x, Role::Returned, it, f),
         Expr::Record(_, fields) => {
@@ -190,6 +196,12 @@ fn blocks_expr(e: &mut Expr, it: &Item, f: &mut BlockFn) {
         }
         Expr::BlockE(b) => blocks_block(b, &BlockKind::Plain, it, f),
         Expr::Call(_, args) | Expr::Ctor(_, _, args) | Expr::ListLit(args) | Expr::FStr(args) => {
+            for a in args {
+                blocks_expr(a, it, f);
+            }
+        }
+        Expr::MCall(r, _, args) => {
+            blocks_expr(r, it, f);
             for a in args {
                 blocks_expr(a, it, f);
             }
@@ -459,8 +471,8 @@ pub fn mutate(prng: &mut Prng, prog: &Prog, kind: &'static str) -> Option<Mutant
             let mut seed = prng.clone();
             prng.next();
             if prng.chance(2, 3) {
-                pick_expr(prng, prog, &|e, _, _| matches!(e, Expr::Call(..) | Expr::Ctor(..)), &mut |e, _, _| {
-                    if let Expr::Call(_, args) | Expr::Ctor(_, _, args) = e {
+                pick_expr(prng, prog, &|e, _, _| matches!(e, Expr::Call(..) | Expr::Ctor(..) | Expr::MCall(..)), &mut |e, _, _| {
+                    if let Expr::Call(_, args) | Expr::Ctor(_, _, args) | Expr::MCall(_, _, args) = e {
                         if !args.is_empty() && seed.chance(1, 2) {
                             args.pop();
                             detail = "one argument fewer".into();
@@ -500,7 +512,13 @@ pub fn mutate(prng: &mut Prng, prog: &Prog, kind: &'static str) -> Option<Mutant
                 })
             }
         }
-        "unknown-name" => match prng.below(5) {
+        "unknown-name" => match prng.below(6) {
+            5 => pick_expr(prng, prog, &|e, _, _| matches!(e, Expr::MCall(..)), &mut |e, _, _| {
+                if let Expr::MCall(_, m, _) = e {
+                    *m = 99;
+                    detail = "unknown method".into();
+                }
+            }),
             0 => pick_expr(prng, prog, &|e, _, _| matches!(e, Expr::Var(_)), &mut |e, _, _| {
                 *e = Expr::Var(91_000);
                 detail = "unknown variable".into();
